@@ -82,7 +82,9 @@ func InitConfig(native *native.NativeService) ([]byte, error) {
 	contract := utils.NodeManagerContractAddress
 
 	// check if initConfig is already execute
-	peerPoolMapBytes, err := native.GetCacheDB().Get(utils.ConcatKey(contract, []byte(PEER_POOL)))
+	// the peer pool is stored per view ("peerPool"||view); the governance view record is written
+	// exactly once by initConfig and never deleted, so it tells whether initConfig already ran
+	peerPoolMapBytes, err := native.GetCacheDB().Get(utils.ConcatKey(contract, []byte(GOVERNANCE_VIEW)))
 	if err != nil {
 		return utils.BYTE_FALSE, fmt.Errorf("initConfig, get peerPoolMap error: %v", err)
 	}
